@@ -59,6 +59,14 @@ def judge_roundtrip(vd, ev, a, res, witness_base, prop="C02", capture=None, pkg_
     if not expect.jeq(res["e"], a["value"]):
         vd.violation(f"lossy_roundtrip{mech(flags)}", f"{a['cls']}: " + expect.jdiff(res["e"], a["value"]), w)
         bad = True
+    ai = res.get("addl_iface")
+    if ai:
+        ev.count("additional_property_interfaces_probed")
+        if ai["keys"] > 0:
+            ev.count("additional_property_interfaces_with_keys")
+        if ai.get("problem"):
+            vd.violation(f"additional_properties_interface{mech(flags)}", f"{a['cls']}: {ai['problem']}", w)
+            bad = True
     if res.get("eq2") is False:
         vd.violation(f"redecode_differs{mech(flags)}", f"{a['cls']}: from_dict(to_dict(o)) != o", w)
         bad = True
